@@ -97,6 +97,15 @@ def _scn(draw):
         tree.setdefault("my notes.txt", "mine")
         tree.setdefault("my", "not to be confused")
         tree.setdefault("Clip 01.mov", "clip")
+    dir_and_file_namesake = draw(st.integers(0, 2)) == 0 and "cache" not in tree
+    if dir_and_file_namesake:
+        # a directory pattern ('cache/') concerns folders of that name only: a regular file called 'cache' stays in
+        tree["cache"] = {"inner.bin": "excluded with its folder", "deeper": {"x.bin": "x"}}
+        first_dir = sorted(k for k, v in tree.items() if isinstance(v, dict) and k != "cache")
+        if first_dir:
+            tree[first_dir[0]]["cache"] = "a file that merely has the folder's name"
+        else:
+            dir_and_file_namesake = False
     entries = list(_walk(tree))
     nf = sorted({p.split("/")[-1] for p, d in entries if not d})
     nd = sorted({p.split("/")[-1] for p, d in entries if d})
@@ -107,6 +116,8 @@ def _scn(draw):
     for i in range(draw(st.integers(1, 4))):
         gens.append({"i": draw(_patterns(nf, nd, draw(st.integers(1, 3)) if i == 0 else draw(st.integers(0, 2)), deep)), "ii": draw(_patterns(nf, nd, draw(st.sampled_from([0, 0, 1, 2])), deep)), "formats": draw(gen.formats(2)),
                      "ii_newline": draw(st.booleans())})
+    if dir_and_file_namesake:
+        gens[0]["i"] = gens[0]["i"] + ["cache/"]
     files = [p for p, d in entries if not d]
     for i in range(1, len(gens)):
         if draw(st.integers(0, 3)) == 0 and files:
